@@ -52,6 +52,14 @@ func (i *Interpreter) EvaluateExpression(expr Expr, env *Environment) (interface
 		if err != nil {
 			return nil, posError(e.Pos, err)
 		}
+		if i.IsConstant(e.Name) {
+			// A module-level constant lives in the global scope that every
+			// request shares. An object or array read from it is handed out as
+			// a copy: assigning to a field of it (directly or through another
+			// variable) would otherwise change the constant for all requests,
+			// from several goroutines at once.
+			return deepCopyValue(val), nil
+		}
 		return val, nil
 
 	case BinaryOpExpr:
